@@ -378,7 +378,7 @@ pub proof fn lemma_stmt_step(m: &naga::Module, b: &naga::Block, j: int,
 
 //@fn wgsl.rs::naga_stages
 fn naga_stages(stage: naga::ShaderStage) -> «(r:» wgpu::ShaderStages«)
-    ensures r.bits == stage_bit(stage),» // [C03.stage-bit] vertex -> VERTEX, fragment -> FRAGMENT, compute -> COMPUTE
+    ensures r.bits == stage_bit(stage), // [C03.stage-bit] vertex -> VERTEX, fragment -> FRAGMENT, compute -> COMPUTE»
 {
     match stage {
         naga::ShaderStage::Vertex => wgpu::ShaderStages::VERTEX,
@@ -402,7 +402,7 @@ fn update_stages_blocks(
         vmono(old(visited)@, final(visited)@),
         new_done(module, old(visited)@, final(visited)@, final(global_stages)@, stage), // [C03.blocks-newdone] every function visited here has all its reachable globals marked
         forall|c: int| #[trigger] block_calls(block, c) ==> callee_post(module, c, final(visited)@, final(global_stages)@, stage), // [C03.blocks-complete] every function called anywhere in the block (nested blocks, if/else, switch cases, loop body AND continuing) is visited and done
-    decreases unvisited(module, old(visited)@), 0nat, block_height(block),» // [C20.blocks-measure] a callee is expanded only when the visited set strictly grows
+    decreases unvisited(module, old(visited)@), 0nat, block_height(block), // [C20.blocks-measure] a callee is expanded only when the visited set strictly grows»
 {
     «proof { lemma_bits(); }
     let ghost v0 = visited@;
@@ -618,7 +618,7 @@ fn update_stages(
         vmono(old(visited)@, final(visited)@),
         new_done(module, old(visited)@, final(visited)@, final(global_stages)@, stage), // [C03.fn-newdone]
         fn_post(module, function, final(global_stages)@, stage), // [C03.fn-complete] every named global reachable from this function (directly or through any call chain) carries `stage`
-    decreases unvisited(module, old(visited)@), 1nat, 0nat,» // [C20.fn-measure] at most one expansion per function per entry point
+    decreases unvisited(module, old(visited)@), 1nat, 0nat, // [C20.fn-measure] at most one expansion per function per entry point»
 {
     «broadcast use axiom_arena_index_req, axiom_handle_key_model, axiom_mk_handle;
     proof { lemma_bits(); }
@@ -750,7 +750,7 @@ fn update_stages(
 pub fn global_shader_stages(module: &naga::Module) -> «(r:» BTreeMap<String, wgpu::ShaderStages>«)
     requires wf(module), wf_entries(module),
     ensures
-        gss_complete(module, r@, module.entry_points@.len() as int),» // [C03.complete] no using stage is ever missing: a global reachable from an entry point of stage S (through any chain of calls, any nesting) has S in its visibility
+        gss_complete(module, r@, module.entry_points@.len() as int), // [C03.complete] no using stage is ever missing: a global reachable from an entry point of stage S (through any chain of calls, any nesting) has S in its visibility»
 {
     // Collect the shader stages for all entries that access a global variable.
     // This is referred to as being "statically accessed" in the WGSL specification.
